@@ -572,6 +572,28 @@ func runT9(c *load.Ctx, r *report.RuleResult) {
 			return &pe.Tuple{E: []pe.Value{pe.NewSym("number("+n+")", numPtr), pe.NilV{}}}, true
 		}
 	}
+	// the kind of a token as the guesser reports it (an alternative to InQuotes / NewNumber)
+	jsonTypeT := namedType(c, pkgJSON, "Type")
+	for _, m := range []string{"JsonType", "LiteralJsonType"} {
+		if f := c.Func(pkgJSON, "GuessData."+m); f != nil && jsonTypeT != nil {
+			e.cfg.Intrinsics[f.String()] = func(in *pe.Interp, args []pe.Value) (pe.Value, bool) {
+				g := args[0]
+				if p, ok := g.(*pe.Ptr); ok {
+					g = in.Load(p)
+				}
+				name := "?"
+				if sv, ok := g.(*pe.StructV); ok {
+					st := sv.T.Underlying().(*types.Struct)
+					for i := 0; i < st.NumFields(); i++ {
+						if st.Field(i).Name() == "bytes" {
+							name = short(sv.F[i])
+						}
+					}
+				}
+				return pe.NewSym("kind("+name+")", jsonTypeT), true
+			}
+		}
+	}
 	constSeen := 0
 	for _, o := range pe.ExploreFn(e.cfg, func(in *pe.Interp) pe.Value {
 		return in.Call(cfn, []pe.Value{pe.NewSym("c", cnamed), pe.NewSym("value", cfn.Params[1].Type())})
@@ -598,6 +620,30 @@ func runT9(c *load.Ctx, r *report.RuleResult) {
 		qe, _ := get("quoted(example)")
 		nv, _ := get("number(value)")
 		ne, _ := get("number(example)")
+		kv, _ := get("kind(value)")
+		ke, _ := get("kind(example)")
+		fold := func(q, n *string, k string) {
+			switch {
+			case k == "":
+			case k == "TypeString":
+				*q = "true"
+			case k == "TypeInteger" || k == "TypeFloat":
+				*q, *n = "false", "yes"
+			default:
+				*q, *n = "false", "no"
+			}
+		}
+		if (kv != "" && (qv != "" || nv != "")) || (ke != "" && (qe != "" || ne != "")) {
+			// two sources for the kind of one token: keep the paths on which they agree
+			chk := func(q, n, k string) bool {
+				return (q == "" || (q == "true") == (k == "TypeString")) && (n == "" || (n == "yes") == (k == "TypeInteger" || k == "TypeFloat"))
+			}
+			if !chk(qv, nv, kv) || !chk(qe, ne, ke) {
+				continue
+			}
+		}
+		fold(&qv, &nv, kv)
+		fold(&qe, &ne, ke)
 		if (qv == "true" && nv == "yes") || (qe == "true" && ne == "yes") {
 			continue // a quoted token is not a numeral
 		}
